@@ -125,7 +125,7 @@ func (r *Run) Violation(key string, replay any, msg string) {
 	dir := filepath.Join(r.Dir, "replays", r.Prop)
 	_ = os.MkdirAll(dir, 0o755)
 	path := filepath.Join(dir, hex.EncodeToString(h[:6])+".json")
-	b, _ := json.MarshalIndent(map[string]any{"property": r.Prop, "key": key, "message": msg, "replay": replay}, "", " ")
+	b, _ := json.MarshalIndent(map[string]any{"property": r.Prop, "part": os.Getenv("VERIF_PKG"), "key": key, "message": msg, "replay": replay}, "", " ")
 	_ = os.WriteFile(path, b, 0o644)
 	r.viol[key] = path
 	fmt.Printf("VIOLATION property=%s replay=%s\n", r.Prop, path)
@@ -199,7 +199,12 @@ func (r *Run) Finish(c Coverage) int {
 	b, _ := json.MarshalIndent(ev, "", " ")
 	_ = os.MkdirAll(filepath.Join(r.Dir, "evidence"), 0o755)
 	if os.Getenv("VERIF_NO_EVIDENCE") == "" {
-		_ = os.WriteFile(filepath.Join(r.Dir, "evidence", r.Prop+".json"), append(b, '\n'), 0o644)
+		out := filepath.Join(r.Dir, "evidence", r.Prop+".json")
+		if part := os.Getenv("VERIF_PART"); part != "" {
+			// one of several harness binaries for this property: bin/check merges the parts
+			out = filepath.Join(os.Getenv("VERIF_BUILD"), "part."+part+".json")
+		}
+		_ = os.WriteFile(out, append(b, '\n'), 0o644)
 	}
 	fmt.Printf("%s %s: level=%s states=%d transitions=%d evaluations=%d distinct=%d exhaustive=%v violations=%d known_hit=%d wall=%.1fs\n",
 		r.Prop, r.Tier, c.Level, c.States, c.Transitions, c.Evaluations, c.Distinct, c.Exhaustive, r.nviol, len(kf), time.Since(r.start).Seconds())
